@@ -286,7 +286,7 @@ func TestCheck(t *testing.T) {
 					r.HarnessError("replay: %v", err)
 				}
 			} else {
-				fmt.Println("replay: no violation reproduced")
+				vk.NoRepro()
 			}
 			r.Finish()
 		}
@@ -309,7 +309,7 @@ func TestCheck(t *testing.T) {
 				vv.Scenario, vv.Trace = v.Scenario, v.Trace
 				r.Report(vv)
 			} else {
-				fmt.Println("replay: no violation reproduced")
+				vk.NoRepro()
 			}
 			break
 		}
